@@ -680,6 +680,19 @@ def common_mode(sc, res):
         return
     if len(sc.branches) >= 2 and sc.n:
         res.nontrivial = True
+    if kind != "source" and log.events != mlog.events:
+        # fill(v) goes to every branch; in which order is not stated: the outputs must agree and
+        # every branch by itself must have seen the same history
+        def outs_of(events):
+            return [e for e in events if e[0] in ("out", "end", "built")]
+
+        def of_branch(events, b):
+            pre = b.name + "."
+            return [e for e in events if len(e) > 1 and isinstance(e[1], str) and e[1].startswith(pre)]
+        if outs_of(log.events) == outs_of(mlog.events) and all(
+                of_branch(log.events, b) == of_branch(mlog.events, b) for b in sc.branches):
+            res.probe("common-type-other-fill-order-among-branches")
+            return
     compare(sc, res, log.events, mlog.events, "Split.common-type")
 
 
@@ -760,6 +773,21 @@ def zip_mode(sc, res):
                          "Zip(..., fields=%r) yielded a value with fields %r"
                          % (fields, getattr(data, "_fields", None)))
                 return
-    if log.events == mlog_abandon.events:
+    if log.events in (mlog.events, mlog_abandon.events):
+        return
+    # The statement fixes the tuples of the branches' i-th results, not the order in which Zip
+    # turns to its branches: the outputs must agree, and every branch by itself must have seen
+    # what it sees under one of the two accepted schedules.
+
+    def outs_of(events):
+        return [e for e in events if e[0] in ("out", "end", "built")]
+
+    def of_branch(events, b):
+        pre = b.name + "."
+        return [e for e in events if len(e) > 1 and isinstance(e[1], str) and e[1].startswith(pre)]
+    if outs_of(log.events) == outs_of(mlog.events) and all(
+            of_branch(log.events, b) in (of_branch(mlog.events, b), of_branch(mlog_abandon.events, b))
+            for b in sc.branches):
+        res.probe("zip-other-order-among-branches")
         return
     compare(sc, res, log.events, mlog.events, "Zip")
